@@ -492,7 +492,7 @@ impl<'c> Exec<'c> {
         let (head, tail, entries) = self.ring_words();
         let full = tail.wrapping_sub(head) >= entries;
         if fresh_waker {
-            self.ops[i].waker = WakerHandle::new();
+            self.ops[i].waker = self.ops[i].waker.replacement();
         }
         let wakes = self.ops[i].waker.wakes();
         let waker = self.ops[i].waker.waker.clone();
